@@ -5,7 +5,7 @@
 EXTENDS Faidx, Json
 BigRecs == <<[hdr |-> 2, L |-> 4000003, W |-> 60], [hdr |-> 7, L |-> 3999997, W |-> 70], [hdr |-> 2, L |-> 2500000, W |-> 80],
              [hdr |-> 2, L |-> 1200001, W |-> 50], [hdr |-> 7, L |-> 130, W |-> 50]>>
-BigInit == recs = BigRecs /\ last = [op |-> "open"]
+BigInit == recs = BigRecs /\ last = [op |-> "open"] /\ pos = 0 /\ nf = 0 /\ gen = 0
 BigSpec == BigInit /\ [][UNCHANGED vars]_vars
 EmitBig == PrintT(ToJson([recs |-> recs, index |-> [r \in DOMAIN recs |-> IndexRowArith(recs, r)],
                           flen |-> SizeBefore(recs, Len(recs)) + RecSize(recs[Len(recs)])]))
